@@ -962,7 +962,7 @@ func (x *Decimal) Rat(z *big.Rat) (*big.Rat, Accuracy) {
 		case x.exp < allDigits:
 			z.Num().SetBits(decToNat(z.Num().Bits(), x.mant))
 			t := dec(nil).setUint64(1)
-			t = t.shl(t, uint(allDigits-x.exp))
+			t = t.shl(t, uint(int64(allDigits)-int64(x.exp)))
 			// we cannot set z.b directly since z.norm() is not exported.
 			y := new(big.Rat)
 			y.Num().SetBits(decToNat(y.Num().Bits(), t))
